@@ -7,6 +7,7 @@ package rt
 
 import (
 	"regexp"
+	"strconv"
 	"strings"
 )
 
@@ -31,6 +32,17 @@ type Seg struct {
 	Suf   string  `json:"suf,omitempty"`
 	Verb  string  `json:"verb,omitempty"`   // custom verb (CurlyRouter only, last segment only)
 	PreRe bool    `json:"pre_re,omitempty"` // VarPre: the variable carries regex Re
+	// ReVar > 0: the expression is written as "(?:<regex Re>)|QQ<ReVar>": another string with the same meaning on
+	// every value the generators produce (none contains QQ), so a process meets hundreds of distinct expressions
+	ReVar int `json:"re_variant,omitempty"`
+}
+
+// ReSrc is the regular expression as written into the template.
+func (s Seg) ReSrc() string {
+	if s.ReVar > 0 {
+		return "(?:" + Regexes[s.Re].Src + ")|QQ" + strconv.Itoa(s.ReVar)
+	}
+	return Regexes[s.Re].Src
 }
 
 func (s Seg) String() string {
@@ -41,7 +53,7 @@ func (s Seg) String() string {
 	case Var:
 		b = "{" + s.Name + "}"
 	case VarRe:
-		b = "{" + s.Name + ":" + Regexes[s.Re].Src + "}"
+		b = "{" + s.Name + ":" + s.ReSrc() + "}"
 	case VarSuf:
 		b = "{" + s.Name + "}" + s.Suf
 	case Wild:
@@ -49,7 +61,7 @@ func (s Seg) String() string {
 	case VarPre:
 		b = s.Lit + "{" + s.Name + "}"
 		if s.PreRe {
-			b = s.Lit + "{" + s.Name + ":" + Regexes[s.Re].Src + "}"
+			b = s.Lit + "{" + s.Name + ":" + s.ReSrc() + "}"
 		}
 	}
 	if s.Verb != "" {
@@ -170,6 +182,16 @@ var Regexes = []*RegexSpec{
 }
 
 func init() {
+	// three parametric families, so that a process meets more distinct expressions than any small cache holds (35 in all)
+	rep := strings.Repeat
+	for k := 1; k <= 8; k++ {
+		ks := string(rune('0' + k))
+		Regexes = append(Regexes,
+			&RegexSpec{Src: "[0-9]{" + ks + "}", Yes: []string{rep("7", k), "01234567"[:k]}, No: []string{"abc", "x-y", "_"}, Part: []string{rep("1", k+1), "a" + rep("2", k)}},
+			&RegexSpec{Src: "[a-c]{" + ks + "}z", Yes: []string{rep("a", k) + "z", "abcabcab"[:k] + "z"}, No: []string{"123", "zzz", "_"}, Part: []string{rep("a", k) + "zz", "1" + rep("b", k) + "z"}},
+			&RegexSpec{Src: "x{" + string(rune('1'+k)) + "}[0-9]", Yes: []string{rep("x", k+1) + "5", rep("x", k+1) + "0"}, No: []string{"x5", "yyy", "_"}, Part: []string{rep("x", k+1) + "55", "a" + rep("x", k+1) + "5"}},
+		)
+	}
 	for _, r := range Regexes {
 		r.full = regexp.MustCompile("^(?:" + r.Src + ")$")
 		r.part = regexp.MustCompile(r.Src)
